@@ -240,9 +240,16 @@ def gen_rows(rng, n: int, regime: Optional[str] = None, step: int = 60, late: Op
     late = rng.choice([0, 0, 1, 2, 5]) if late is None else late
     for r, t in zip(rows, gen.gen_timestamps(rng, n, ts_mode, step)):
         r["ts"] = t
+    # now and then whole-number prices given as Python ints
+    if rng.random() < 0.08 and rows and min(r["low"] for r in rows) >= 2:
+        for r in rows:
+            for k in ("open", "high", "low", "close"):
+                r[k] = int(r[k])
     for i, r in enumerate(rows):
         inds = {"flag": rng.random() < 0.6}
         if i >= late:
             inds["src"] = round(r["close"] * rng.uniform(0.9, 1.1), 2)
+            # a dict-valued reading, addressed as "dd.x"
+            inds["dd"] = {"x": round(r["close"] * rng.uniform(0.95, 1.05), 2), "y": None if rng.random() < 0.2 else float(i)}
         r["inds"] = inds
     return rows
